@@ -8,6 +8,12 @@ import json
 import os
 import sys
 
+# One BLAS / OpenMP thread per process: the matrices of the checks are small (N <= 200), a thread pool per process only
+# oversubscribes the machine when several checks run side by side (a quick C13 run took 444 s instead of 50 s next to a
+# dozen other jobs), and child interpreters (C17) inherit the setting, so every run of a case sees the same arithmetic.
+for _v in ("OPENBLAS_NUM_THREADS", "OMP_NUM_THREADS", "MKL_NUM_THREADS", "NUMEXPR_NUM_THREADS"):
+    os.environ.setdefault(_v, "1")
+
 HERE = os.path.dirname(os.path.abspath(__file__))
 sys.path.insert(0, HERE)
 import lib  # noqa: E402
